@@ -1,5 +1,6 @@
 """Property -> rules table."""
 import r_cloud
+import r_panic
 
 PROPS = {}
 
@@ -15,3 +16,13 @@ PROPS["C10"] = {
     "not_decided": "safety under all interleavings with other clients and page boundaries",
     "assumptions": [],
 }
+
+PROPS["C18"] = {
+    "rules": [lambda F, R: r_panic.rule_panic(F, R)],
+    "explanation": "Panic reachability: from every exported read accessor of Task, TaskData, WorkingSet, DependencyMap, Tag, Status, Annotation and every Replica method from which no StorageTxn writer is reachable, the crate-local call graph (closures, trait impls) is followed down to the Storage/StorageTxn trait boundary; every panic construct in that cone (panicking::* calls, unwrap/expect, panicking index/arith APIs from a frozen list, compiler Assert terminators) must be in the reasoned allow table. Holds for every stored string content at once.",
+    "not_decided": "panics inside dependencies that are not in the frozen API list; wrong-value misbehaviour; the storage backends below the trait boundary",
+    "assumptions": ["the frozen list of panicking std/chrono APIs in rules/r_panic.py is complete for the APIs the cone uses", "storage contract for get_working_set slot 0"],
+}
+
+# reasons shown in MANIFEST.not_applicable for properties not (yet) claimed
+NOT_YET = {}
